@@ -316,24 +316,17 @@ def _softmax_batch_rule(
             None,
         )
 
-    rank = x.ndim
-    canon_axis = axis if axis >= 0 else axis + rank
-    if canon_axis < 0 or canon_axis >= rank:
+    # `axis` is given in the coordinates of one example: the operand without
+    # its batch dimension.
+    body_rank = x.ndim - 1 if x_bdim is not None else x.ndim
+    axis_body = axis if axis >= 0 else axis + body_rank
+    if axis_body < 0 or axis_body >= body_rank:
         raise ValueError("Invalid axis for softmax batching rule")
 
     if x_bdim is not None and x_bdim != 0:
         x = jnp.moveaxis(x, x_bdim, 0)
     if where is not None and where_bdim is not None and where_bdim != 0:
         where = jnp.moveaxis(where, where_bdim, 0)
-
-    if x_bdim is None:
-        axis_body = canon_axis
-    elif canon_axis == x_bdim:
-        axis_body = 0
-    elif canon_axis < x_bdim:
-        axis_body = canon_axis
-    else:
-        axis_body = canon_axis - 1
 
     in_axes: tuple[int | None, ...] = (0 if x_bdim is not None else None,)
     if has_where:
